@@ -124,8 +124,7 @@ def main():
         "not_applicable": na,
         "notes": "Two genuine defects were repaired in /repo as 'fix:' commits (8d61305, 54d1def), see known_findings.json and DESIGN.md section 7.",
     }
-    if not na:
-        del m["not_applicable"]
+    # an explicit empty list: every listed property is claimed
     json.dump(m, open(os.path.join(ROOT, "MANIFEST.json"), "w"), indent=1)
     try:
         import jsonschema
